@@ -1,5 +1,6 @@
 import PyCraft.Props.C12
 import PyCraft.Props.C12Bytes
+import PyCraft.Props.C12Final
 #print axioms PyCraft.C12.step_inv
 #print axioms PyCraft.C12.run_inv
 #print axioms PyCraft.C12.only_holder_mid_frame
@@ -22,3 +23,12 @@ import PyCraft.Props.C12Bytes
 #print axioms PyCraft.C12Bytes.server_decodes_exactly_sent_encrypted
 #print axioms PyCraft.C12Bytes.server_decodes_exactly_sent_cfb8
 #print axioms PyCraft.C12Bytes.server_decodes_exactly_sent_wrappers
+#print axioms PyCraft.C12Final.run_hist
+#print axioms PyCraft.C12Final.wire_and_queue_from_log
+#print axioms PyCraft.C12Final.closing_section_exists
+#print axioms PyCraft.C12Final.closing_section_unique
+#print axioms PyCraft.C12Final.closer_kind
+#print axioms PyCraft.C12Final.all_sent_or_dropped_after_disconnect
+#print axioms PyCraft.C12Final.graceful_disconnect_sends_all_queued_before
+#print axioms PyCraft.C12Final.graceful_disconnect_queue_exact
+#print axioms PyCraft.C12Final.immediate_disconnect_sends_nothing_after
